@@ -111,6 +111,17 @@ func (C17) Execute(sc *core.Scenario, keepLog bool) *core.Result {
 			return ""
 		}
 		refusedN, acceptedAtLimit := 0, 0
+		// Whether the hidden recovery mailbox counts against the mailbox limit is not stated.
+		// The server says which way it counts: once it has refused ONE more mailbox, for the
+		// mailbox limit, with c visible mailboxes existing (nothing else going on), c is the
+		// most it may ever hold in this run - also when several requests arrive at once.
+		capLearned := -1
+		learnCap := func(text string) {
+			if strings.Contains(text, "max mailbox count") && (capLearned < 0 || nBoxes() < capLearned) {
+				capLearned = nBoxes()
+				e.St.Probes["mailbox_capacity_learned_from_refusal"]++
+			}
+		}
 		invariants := func() {
 			if e.Failed() {
 				return
@@ -134,6 +145,10 @@ func (C17) Execute(sc *core.Scenario, keepLog bool) *core.Result {
 			}
 			if cnt > maxBoxes {
 				e.Fail("limit-mailboxes", "%d mailboxes exist (%v), configured maximum is %d", cnt, got, maxBoxes)
+				return
+			}
+			if capLearned >= 0 && cnt > capLearned {
+				e.Fail("limit-mailboxes", "%d mailboxes exist (%v) although the server had refused to create one more, for the mailbox limit (%d), when %d existed", cnt, got, maxBoxes, capLearned)
 				return
 			}
 			if !sameNames(got, names()) {
@@ -341,8 +356,18 @@ func (C17) Execute(sc *core.Scenario, keepLog bool) *core.Result {
 					st   string
 				}
 				var ps []*pc
+				// in some runs the new mailboxes are siblings below one parent that does not
+				// exist yet: every serial order creates the parent once and accepts them all
+				par := ""
+				if abs(a.Arg(4))/2%3 == 1 {
+					par = fmt.Sprintf("par%d", abs(a.Arg(2))%3)
+				}
+				parMissing := par != "" && e.R.Boxes[par] == nil
 				for j := 0; j < k; j++ {
 					name := fmt.Sprintf("q%d", (abs(a.Arg(2))+j)%8)
+					if par != "" {
+						name = par + "/" + name
+					}
 					if e.R.Boxes[name] != nil {
 						continue
 					}
@@ -380,6 +405,19 @@ func (C17) Execute(sc *core.Scenario, keepLog bool) *core.Result {
 					e.W.Tracef("C %s: %s CREATE %s", p.s.Label, p.tag, p.name)
 					p.s.C.Conn.ClientSend([]byte(fmt.Sprintf("%s CREATE %s\r\n", p.tag, p.name)))
 				}
+				// ... and in some runs the remote announces a new mailbox at the same moment:
+				// the connector update is one more writer at the gate
+				var cupd imap.Update
+				var cid imap.MailboxID
+				cname := fmt.Sprintf("r%d", abs(a.Arg(2))%5)
+				if abs(a.Arg(4))%2 == 1 && e.R.Boxes[cname] == nil {
+					cid = u.Conn.NewMailboxID()
+					cupd = imap.NewMailboxCreated(u.Conn.MailboxTemplate(cid, []string{cname}))
+					e.W.Sim.SetLabel("conn")
+					if !u.Conn.Submit(cupd) {
+						cupd = nil
+					}
+				}
 				e.W.Quiesce()
 				gateMu.Lock()
 				gateShut = false
@@ -408,6 +446,9 @@ func (C17) Execute(sc *core.Scenario, keepLog bool) *core.Result {
 					switch p.st {
 					case "OK":
 						acc++
+						if par != "" && e.R.Boxes[par] == nil {
+							e.R.Create(par, "")
+						}
 						e.R.Create(p.name, "")
 					case "":
 						e.Fail("invariant", "concurrent CREATE %q on %s got no completion", p.name, p.s.Label)
@@ -419,13 +460,50 @@ func (C17) Execute(sc *core.Scenario, keepLog bool) *core.Result {
 					p.s.C.Dead = true
 				}
 				e.St.Probes["parallel_creates"]++
+				nreq := len(ps)
+				if cupd != nil {
+					nreq++
+					ch := make(chan error, 1)
+					go func() {
+						err, _ := cupd.Wait()
+						ch <- err
+					}()
+					e.W.Quiesce()
+					select {
+					case err := <-ch:
+						e.Tr.Event("pcreate-conn", cname, err != nil)
+						if err == nil {
+							acc++
+							u.Conn.MboxNames[cid] = []string{cname}
+							remote[cname] = cid
+							e.R.Create(cname, string(cid))
+						} else {
+							refusedN++
+						}
+					default:
+						e.Fail("update-ack", "MailboxCreated submitted together with %d CREATE commands was not acknowledged", len(ps))
+						return
+					}
+					e.St.Probes["connector_create_among_parallel_creates"]++
+				}
+				if parMissing {
+					// the shared parent takes one place
+					e.St.Probes["parallel_creates_below_missing_parent"]++
+					if acc > 0 {
+						room--
+					}
+					if acc < len(ps) && len(ps)+1 <= room {
+						e.Fail("fits-refused", "%d sessions sent CREATE for siblings below the missing parent %q at the same time (%d mailboxes existing, limit %d) and only %d were accepted", len(ps), par, nBoxes()-acc-1, maxBoxes, acc)
+						return
+					}
+				}
 				if acc > max(room, 0) {
-					e.Fail("limit-concurrent", "%d sessions sent CREATE at the same time with %d mailboxes existing (limit %d) and %d were accepted: room for %d", len(ps), nBoxes()-acc, maxBoxes, acc, max(room, 0))
+					e.Fail("limit-concurrent", "%d CREATE requests (sessions and remote) at the same time with %d mailboxes existing (limit %d) and %d were accepted: room for %d", nreq, nBoxes()-acc, maxBoxes, acc, max(room, 0))
 					return
 				}
 				// (the hidden recovery mailbox may count against the limit: refusing is judged with it)
-				if acc < min(len(ps), max(room-1, 0)) {
-					e.Fail("fits-refused", "%d sessions sent CREATE at the same time with %d mailboxes existing (limit %d) and only %d were accepted: room for %d", len(ps), nBoxes()-acc, maxBoxes, acc, room-1)
+				if !parMissing && acc < min(nreq, max(room-1, 0)) {
+					e.Fail("fits-refused", "%d CREATE requests (sessions and remote) at the same time with %d mailboxes existing (limit %d) and only %d were accepted: room for %d", nreq, nBoxes()-acc, maxBoxes, acc, room-1)
 					return
 				}
 				refreshRemote()
@@ -513,6 +591,9 @@ func (C17) Execute(sc *core.Scenario, keepLog bool) *core.Result {
 					}
 				} else {
 					refusedN++
+					if len(missing) == 1 {
+						learnCap(r.Text)
+					}
 					if len(missing) > 0 && nBoxes()+1+len(missing) <= maxBoxes {
 						e.Fail("fits-refused", "CREATE %q (%d new mailboxes, %d exist, limit %d) answered %s %s", name, len(missing), nBoxes(), maxBoxes, r.Status, r.Text)
 					}
@@ -636,6 +717,7 @@ func (C17) Execute(sc *core.Scenario, keepLog bool) *core.Result {
 					e.R.Create(name, string(id))
 				} else {
 					refusedN++
+					learnCap(r.Err.Error())
 					if nBoxes()+2 <= maxBoxes {
 						e.Fail("fits-refused", "connector MailboxCreated %q (%d mailboxes exist, limit %d) completed with error %v", name, nBoxes(), maxBoxes, r.Err)
 					}
